@@ -24,6 +24,7 @@ import traceback
 HERE = os.path.dirname(os.path.abspath(__file__))
 sys.path.insert(0, os.path.dirname(HERE))
 from harness import lib  # noqa: E402
+from harness import purity  # noqa: E402
 from harness.lib import VERIF, COQ, REPO  # noqa: E402
 
 FORBIDDEN = re.compile(
@@ -354,9 +355,27 @@ def sig_key(sig):
 # ----------------------------------------------------------------------------------------------
 # one check
 # ----------------------------------------------------------------------------------------------
+PURITY_SHARE = float(os.environ.get("VERIF_PURITY_SHARE", "0.25"))
+
+
+def mark_perturbed(pl, pid, seed, gen):
+    """a fixed share of the generated cases is run under the history perturbation of harness/purity.py (own PRNG, so the
+    plug-in's random stream is not shifted); the key travels with the case into the replay file"""
+    if not getattr(pl, "PURITY_SHIM", True) or pid in purity.OPT_OUT or PURITY_SHARE <= 0:
+        return 0
+    r = random.Random("purity-%s-%d" % (pid, seed))
+    n = 0
+    for c in gen:
+        if isinstance(c, dict) and "_pre" not in c and r.random() < PURITY_SHARE:
+            c["_pre"] = 1
+            n += 1
+    return n
+
+
 def safe_impl(pl, case):
     try:
-        return pl.run_impl(case)
+        with purity.perturbed(isinstance(case, dict) and bool(case.get("_pre"))):
+            return pl.run_impl(case)
     except Exception as e:  # plugin run_impl is expected to catch pypika's own exceptions; this is the safety net
         return {"harness_exc": "%s: %s" % (type(e).__name__, e)}
 
@@ -415,6 +434,7 @@ def check(pid, tier, seed):
         # 3. correspondence + 4. oracle
         corpus = list(getattr(pl, "corpus", lambda: [])())
         gen = list(pl.gen_cases(rng, tier))
+        n_perturbed = mark_perturbed(pl, pid, seed, gen)
         cases = corpus + gen
         outcomes = [safe_impl(pl, c) for c in cases]
         coq_cases, coq_idx = [], []
@@ -537,6 +557,7 @@ def check(pid, tier, seed):
                 "traces_validated_against_impl": len(coq_cases) - len(mism) if rc == 0 else 0,
                 "correspondence_cases": len(coq_cases), "correspondence_mismatches": len(mism),
                 "corpus_cases": len(corpus), "targeted_search_cases": searched,
+                "history_perturbed_cases": dict(purity.counters(), cases=n_perturbed),
                 "oracle_violations_total": len(viols), "known_findings_reconfirmed": len(seen_known),
                 "broken_obligations": broken,
                 "histogram": getattr(pl, "histogram", lambda cs: {})(cases),
